@@ -358,7 +358,10 @@ def decide(prop, checks, parser, text, res, exc, over, hist, steps):
             try:
                 problems = S.audit(res, expr=True)
             except RecursionError:
-                problems = ["tree too deep/cyclic"]
+                problems = ["tree is cyclic"] if _cyclic(res) else []   # merely too deep for the monitor: not a finding
+            if any(str(q).startswith("depth >") for q in problems):
+                # the audit's own depth guard: a very long sum is a very deep (left-leaning) tree, not a malformed one
+                problems = ["tree is cyclic"] if _cyclic(res) else [q for q in problems if not str(q).startswith("depth >")]
             if not _is_expr(res):
                 problems.insert(0, f"returned {type(res).__name__}, not an expression")
             if problems:
@@ -388,6 +391,20 @@ def decide(prop, checks, parser, text, res, exc, over, hist, steps):
     # ---------------- C10/C12: history independence (compare with a fresh parser)
     if "history" in checks and not over and hist is not None and len(hist) > 0:
         _history(prop, rec, parser, text, res, exc, out, hist, bad)
+
+
+def _cyclic(root):
+    seen, stack = set(), [root]
+    while stack:
+        x = stack.pop()
+        if x is None:
+            continue
+        if id(x) in seen:
+            return True
+        seen.add(id(x))
+        stack.append(getattr(x, "left", None))
+        stack.append(getattr(x, "right", None))
+    return False
 
 
 def _is_expr(x):
